@@ -27,6 +27,7 @@ inductive Err
   | empty    -- ValueError of `np.max([])`: no control channel at all
   | type     -- TypeError `len()` of a scalar coefficient next to a sampled tlist
   | badperm  -- (protocol) the permutation handed over as `np.argsort` output is not a sorting permutation
+  | t0       -- ValueError "Pulse time sequence must start from 0" of `Instruction.__init__`
 deriving DecidableEq, Repr
 
 /-- `tlist`/`coeff` of one pulse of an instruction, as `_process_gate_pulse` sees them. -/
